@@ -101,7 +101,7 @@ func runFork(line string) (*forkOutcome, error) {
 	if round < 0 {
 		round = 0
 	}
-	ev, err := w.makeEvidence(A, victim, uint64(round), "ok")
+	ev, _, err := w.makeEvidence(A, victim, uint64(round), "ok")
 	if err != nil {
 		return nil, err
 	}
